@@ -55,7 +55,13 @@ fn element_op(t: &mut Tape<'_>) -> Op {
         12 => Op::StartAfter(gstr(t), ct(t)),
         13 => Op::StreamBefore(vec![gstr(t), gstr(t)], ct(t)),
         14 => Op::StreamAfter(vec![gstr(t), gstr(t)], ct(t)),
-        _ => Op::OnEndTag(vec![token_op(t)]),
+        _ => {
+            let mut v = vec![token_op(t)];
+            if t.chance(1, 3) {
+                v.push(Op::SetTagName(t.pick(TAG_NAMES).to_string()));
+            }
+            Op::OnEndTag(v)
+        }
     }
 }
 
